@@ -127,7 +127,7 @@ type loopInfo struct {
 func NewEngine(prog *ssa.Program, pkgs []*packages.Package) *Engine {
 	e := &Engine{Prog: prog, Pkgs: pkgs, SSAPkgs: map[string]*ssa.Package{}, Contracts: map[*ssa.Function]*contract.Func{},
 		ByKey: map[string]*contract.Func{}, Preds: map[string]*contract.Pred{}, noteSet: map[string]bool{}, constName: map[string]string{},
-		TypeInvs: map[string]*contract.Pred{}, constGlobals: map[*ssa.Global]Value{}, textCache: map[token.Pos]string{}, MaxPaths: 20000, IfaceSpec: map[string]*contract.Func{}, LemmaPkg: map[*contract.Lemma]string{}}
+		TypeInvs: map[string]*contract.Pred{}, constGlobals: map[*ssa.Global]Value{}, textCache: map[token.Pos]string{}, MaxPaths: 60000, IfaceSpec: map[string]*contract.Func{}, LemmaPkg: map[*contract.Lemma]string{}}
 	for _, p := range prog.AllPackages() {
 		e.SSAPkgs[p.Pkg.Path()] = p
 	}
